@@ -4,9 +4,13 @@
   (the extractor checks that the twelve bodies are textually identical apart from them); the extracted
   table equals the documented one, aliases have the configuration of the macro they alias, and a spawn
   variant differs from its plain counterpart in the `is_spawn` flag only.
+  Semantic part (last section): with `is_spawn` switched on the reference semantics — and, by the refinement theorem, the
+  generated code — ends with the same outcome.
 -/
 import JoinModel.Gen
 import JoinModel.SpecTables
+import JoinModel.Refinement
+import JoinModel.Lemmas.SpawnAgree
 namespace JoinModel.Props.C07
 open JoinModel
 
@@ -17,7 +21,8 @@ def kindOf (name : String) : Option Kind :=
 /-- Expansion of the macro called `name` on the parsed input `p`. -/
 def expand (name : String) (p : Input) : Option (Except GenErr Code) := (kindOf name).map (gen p)
 
-theorem macro_kinds_documented : Tables.macroKinds = SpecTables.macroKinds := by decide
+/-- the extracted table is the documented one (in whatever order lib.rs defines the entry points) -/
+theorem macro_kinds_documented : Tables.macroKinds.Perm SpecTables.macroKinds := by decide
 
 theorem alias_kinds : ∀ a ∈ SpecTables.aliases, kindOf a.1 = kindOf a.2 ∧ (kindOf a.1).isSome := by decide
 
@@ -45,5 +50,52 @@ theorem spawn_pairs_differ_only_in_spawn : ∀ a ∈ SpecTables.spawnPairs, spaw
 
 /-- All twelve documented names are defined, with pairwise distinct names. -/
 theorem twelve_macros : Tables.macroKinds.length = 12 ∧ (Tables.macroKinds.map (·.name)).Nodup := by decide
+
+/-! ### spawn variants compute what their plain counterparts compute -/
+
+/-- the configuration with `is_spawn` switched on -/
+def spawnOf (k : Kind) : Kind := { k with isSpawn := true }
+
+theorem specRun_spawn_sim (σ : World) (parent : Option String) (p : Input) (kind : Kind)
+    (hs : kind.isSpawn = false) (ha : kind.isAsync = false) :
+    (specRun σ parent p kind).res.sim (specRun σ parent p (spawnOf kind)).res := by
+  unfold specRun
+  refine M.andThen_sim _ _ _ _ (Res.sim_refl _) (fun _ => ?_)
+  refine M.andThen_sim _ _ _ _ ?_ (fun f => ?_)
+  · exact specLoop_spawning_sim ⟨σ, kind, _, parent, _⟩ hs ha _ _ _
+  · -- the handler does not look at `is_spawn`
+    cases f <;> cases p.handler.map Prod.fst <;> first | exact Res.sim_refl _ | (rename_i hk; cases hk <;> exact Res.sim_refl _)
+
+/-- **`join!` / `join_spawn!`, `try_join!` / `try_join_spawn!`.**  For every program both variants support, every world
+    and calling thread: the code generated for the thread-spawning macro and the code generated for the plain macro end
+    with the same value (in try macros: the same tuple, or the same failure) — or both panic. -/
+theorem spawn_agrees (σ : World) (parent : Option String) (p : Input) (kind : Kind) (code code' : Code)
+    (hs : kind.isSpawn = false) (ha : kind.isAsync = false)
+    (hsup : Supported p kind) (hsup' : Supported p (spawnOf kind))
+    (hgen : gen p kind = .ok code) (hgen' : gen p (spawnOf kind) = .ok code') :
+    (evalCode σ parent code).res.sim (evalCode σ parent code').res := by
+  rw [sync_refines σ parent p kind code hsup hgen, sync_refines σ parent p (spawnOf kind) code' hsup' hgen']
+  exact specRun_spawn_sim σ parent p kind hs ha
+
+/-- **`join_async!` / `join_async_spawn!`.**  Under the canonical schedule the two generated codes have the same events and
+    the same outcome (the reference semantics does not depend on `is_spawn` for async macros; what tokio adds is outside the
+    model). -/
+theorem async_spawn_agrees (σ : World) (parent : Option String) (p : Input) (kind : Kind) (code code' : Code)
+    (ha : kind.isAsync = true) (hsup : Supported p kind) (hsup' : Supported p (spawnOf kind))
+    (hgen : gen p kind = .ok code) (hgen' : gen p (spawnOf kind) = .ok code') :
+    evalCode σ parent code' = evalCode σ parent code := by
+  rw [sync_refines σ parent p kind code hsup hgen, sync_refines σ parent p (spawnOf kind) code' hsup' hgen']
+  unfold specRun
+  have := specLoop_async_spawning ⟨σ, kind, p.branches.map (fun b => b.pat.map (·.ident)), parent,
+    p.branches.map fun b => splitSteps b.members⟩ ha
+  simp only [SpecCfg.spawning] at this
+  simp only [spawnOf, this]
+  rfl
+
+/-- the spawn pairs of the documented table are `spawnOf` pairs -/
+theorem spawn_pairs_are_spawnOf : ∀ a ∈ SpecTables.spawnPairs,
+    (match kindOf a.1, kindOf a.2 with
+      | some s, some pl => decide (s = spawnOf pl) && !pl.isSpawn
+      | _, _ => false) = true := by decide
 
 end JoinModel.Props.C07
